@@ -247,6 +247,26 @@ func checkC07(c *Ctx, r *Report) {
 	c.checkDispatch(r, ro)
 	c.checkAnySwitch(r)
 	c.checkJSONLayoutOrder(r, ro)
+	// "strings equal the input with each invalid UTF-8 byte replaced by U+FFFD" rests on the escaper:
+	// the C09 obligations are evaluated here as well, so a change to the escaper fails this property too.
+	sub := newReport("C09", r.Tier)
+	checkC09(c, sub)
+	nOK := 0
+	for _, ob := range sub.Obls {
+		if ob.Status == Discharged {
+			nOK++
+			continue
+		}
+		o2 := *ob
+		o2.Key = "C07.strings/" + ob.Key
+		r.add(&o2)
+	}
+	for f := range sub.funcsSeen {
+		r.funcsSeen[f] = true
+	}
+	if nOK == len(sub.Obls) {
+		r.OK("C07.strings/escaper", "all %d escaper obligations of C09 hold (keys and string values decode to the input, invalid bytes → U+FFFD)", nOK)
+	}
 }
 
 // ---------------------------------------------------------------------------
@@ -1455,6 +1475,22 @@ func checkC08(c *Ctx, r *Report) {
 	c.checkTextDelegate(r, jt, tt, depthF, writtenF, jsonF, lastF, toks, mainEsc)
 	c.checkTextHeader(r, ro, jt)
 	c.checkConfigBounds(r, ro, "C08.width")
+	// "no field key or value can introduce a line break or a raw control character" rests on the shared escaper
+	sub := newReport("C09", r.Tier)
+	checkC09(c, sub)
+	nOK := 0
+	for _, ob := range sub.Obls {
+		if ob.Status == Discharged {
+			nOK++
+			continue
+		}
+		o2 := *ob
+		o2.Key = "C08.strings/" + ob.Key
+		r.add(&o2)
+	}
+	if nOK == len(sub.Obls) {
+		r.OK("C08.strings/escaper", "all %d escaper obligations of C09 hold for the text encoder's keys and string values", nOK)
+	}
 }
 
 func (c *Ctx) checkTextDelegate(r *Report, jt, tt *types.Named, depthF, writtenF, jsonF, lastF *types.Var, toks []*ssa.NamedConst, mainEsc *ssa.Function) {
